@@ -195,7 +195,7 @@ func (d *Decrypter) Start() {
 			}
 			if decoded.Payload.MHDR.MType == protocol.JoinRequest {
 				go func() {
-					d.processJoinRequest(decoded)
+					d.verifyAndProcessJoinRequest(decoded)
 				}()
 				return
 			}
